@@ -95,7 +95,7 @@ func (d *dec) object(addr uint64, path string) *Object {
 				}
 				o.Attrs = append(o.Attrs, a)
 			case mLink:
-				l := d.decodeLink(body, at)
+				l := d.decodeLink(body, at, h.version != 1)
 				compactLinks = append(compactLinks, l)
 			case mLinkInfo:
 				linkInfo = d.decodeInfoMsg(body, at, what, 8)
@@ -129,6 +129,12 @@ func (d *dec) object(addr uint64, path string) *Object {
 			case mContinuation:
 			case mRefCount:
 				c := d.cursor(body, at, what)
+				if len(body) == 4 {
+					// the pinned library writes only the 4-byte count
+					d.deviate("refcount-msg-no-version", "%s: reference count message is 4 bytes (count only); the message starts with a version byte and is 5 bytes", what)
+					o.RefCount = c.u32("reference count")
+					break
+				}
 				if v := c.u8("version"); v != 0 {
 					d.fail("%s: reference count message version %d, expected 0", what, v)
 				}
@@ -177,12 +183,37 @@ func (d *dec) object(addr uint64, path string) *Object {
 				c.addr("heap address")
 				c.skip(used*3*d.L, "slot definitions")
 			case mSOHMTable:
+				if path != "<superblock-extension>" && len(body) != 2+d.O {
+					// the pinned library numbers the attribute info message 0x0F (the shared message table's type) instead of 0x15
+					var ai *linkInfoMsg
+					ok := true
+					func() {
+						defer func() {
+							if r := recover(); r != nil {
+								if _, is := r.(*specError); !is {
+									panic(r)
+								}
+								ok = false
+							}
+						}()
+						ai = d.decodeInfoMsg(body, at, what, 2)
+					}()
+					if ok && (len(body) == 2+2*d.O || len(body) == 4+2*d.O || len(body) == 2+3*d.O || len(body) == 4+3*d.O) {
+						d.deviate("attr-info-msg-type-0x0f", "%s: message type 0x0F (shared message table) holds an attribute info message, whose type is 0x15", what)
+						if attrInfo != nil {
+							d.fail("%s: second attribute info message in one object header", what)
+						}
+						attrInfo = ai
+						break
+					}
+				}
 				c := d.cursor(body, at, what)
 				if v := c.u8("version"); v != 0 {
 					d.fail("%s: shared message table message version %d, expected 0", what, v)
 				}
 				c.addr("shared object header message table address")
 				c.u8("number of indices")
+				d.trailing(body, c.pos, h.version, what)
 			case mFileSpace:
 				c := d.cursor(body, at, what)
 				if v := c.u8("version"); v > 1 {
@@ -239,6 +270,12 @@ func (d *dec) object(addr uint64, path string) *Object {
 			}
 			o.Links = compactLinks
 		}
+	case len(compactLinks) == 1 && !hasGroupInfo && len(h.msgs) == 1 && compactLinks[0].Kind != "hard":
+		// the pinned library stores a soft/external link as an object header of its own that holds just the
+		// link message, and enters that header in the parent's symbol table like an object
+		d.deviate("link-pseudo-object", "object header 0x%x (%s): holds nothing but a %s link message; links are stored in the group that contains them (link message in the group's header, or a symbol table entry with cache type 2), not as separate objects", ha, path, compactLinks[0].Kind)
+		o.Kind = "link-pseudo-object"
+		o.Links = compactLinks
 	case len(compactLinks) > 0 || hasGroupInfo:
 		// link messages without link info: the spec requires a link info message in every new-style group
 		d.fail("object header 0x%x (%s): link/group info messages without a link info message", ha, path)
@@ -247,10 +284,12 @@ func (d *dec) object(addr uint64, path string) *Object {
 	case o.Type != nil && sp == nil && lay == nil:
 		o.Kind = "datatype"
 	}
-	if o.Kind != "dataset" && (sp != nil || lay != nil) && len(unsup) == 0 {
+	if o.Kind != "dataset" && o.Kind != "group" && (sp != nil || lay != nil) && len(unsup) == 0 {
 		d.fail("object header 0x%x (%s): incomplete dataset: dataspace=%v datatype=%v layout=%v", ha, path, sp != nil, o.Type != nil, lay != nil)
 	}
-	if o.Kind == "group" && (sp != nil || lay != nil) {
+	if o.Kind == "group" && linkInfo != nil && sp != nil && lay == nil && o.Type == nil && sp.scalar {
+		d.deviate("dense-group-dataspace-msg", "object header 0x%x (%s): group object header carries a (scalar) dataspace message", ha, path)
+	} else if o.Kind == "group" && (sp != nil || lay != nil) {
 		d.fail("object header 0x%x (%s): group object header also carries dataset messages", ha, path)
 	}
 
@@ -357,9 +396,10 @@ func (d *dec) denseAttrs(o *Object, ai *linkInfoMsg) {
 	default:
 		d.fail("B-tree v2 at 0x%x (attribute name index of %s): record type %d, expected 8", bta, o.Path, bt.typ)
 	}
-	if fh.idLen != idLen {
-		d.fail("fractal heap at 0x%x (attributes of %s): heap ID length %d, expected %d", d.abs(ai.fheap), o.Path, fh.idLen, idLen)
+	if fh.idLen != 8 {
+		d.fail("fractal heap at 0x%x (attributes of %s): heap ID length %d, expected 8", d.abs(ai.fheap), o.Path, fh.idLen)
 	}
+	_ = idLen
 	var prevHash uint32
 	for i, r := range bt.records {
 		var id []byte
